@@ -179,31 +179,32 @@ def _kill_stray_cbmc():
 
 
 def _parse_json(results, data):
-    for pd in data.get("property_details", []):
+    for pd in (data.get("property_details") or []):
         r = results.get(pd.get("harness_id"))
         if not r:
             continue
-        d = pd.get("property_details", {})
-        r.total = d.get("total_properties", 0)
-        r.passed = d.get("passed", 0)
-        r.failed = d.get("failed", 0)
-        r.unreachable = d.get("unreachable", 0)
-        r.undetermined = d.get("undetermined", 0) + d.get("solver_error", 0)
-        r.covers_satisfied = d.get("satisfied", 0)
-        r.covers_total = d.get("satisfied", 0) + d.get("unsatisfiable", 0)
-    for c in data.get("cbmc", []):
+        d = pd.get("property_details") or {}
+        g = lambda k: d.get(k) or 0  # noqa: E731  (values are null when CBMC produced no result)
+        r.total = g("total_properties")
+        r.passed = g("passed")
+        r.failed = g("failed")
+        r.unreachable = g("unreachable")
+        r.undetermined = g("undetermined") + g("solver_error")
+        r.covers_satisfied = g("satisfied")
+        r.covers_total = g("satisfied") + g("unsatisfiable")
+    for c in (data.get("cbmc") or []):
         r = results.get(c.get("harness_id"))
         if r:
             st = c.get("cbmc_stats") or {}
             r.stats = {k: st.get(k) for k in ("runtime_symex_s", "runtime_solver_s", "vccs_generated",
                                               "vccs_remaining", "size_program_expression") if k in st}
-    for res in (data.get("verification_results") or {}).get("results", []):
+    for res in ((data.get("verification_results") or {}).get("results") or []):
         r = results.get(res.get("harness_id"))
         if not r:
             continue
         st = res.get("status")
         r.duration_s = (res.get("duration_ms") or 0) / 1000.0
-        for c in res.get("checks", []):
+        for c in res.get("checks") or []:
             fn = c.get("function")
             if fn:
                 r.functions.add(fn)
